@@ -1993,13 +1993,13 @@ class Measurement:
         self_upper = self.measurand + self.uncertainty
         other_upper = other.measurand + other.uncertainty
 
+        # two intervals overlap exactly when each one starts before the other ends;
+        # testing only whether the other's bounds fall within this one is not
+        # symmetric (it misses an interval that strictly contains this one)
         try:
-            overlaps_lower = self_lower <= other_lower <= self_upper
-            overlaps_upper = self_lower <= other_upper <= self_upper
+            return self_lower <= other_upper and other_lower <= self_upper
         except TypeError:
             return False
-
-        return overlaps_lower or overlaps_upper
 
     def __lt__(self, other: object) -> bool:
         if isinstance(other, Quantity):
